@@ -291,6 +291,13 @@ func runC06(r *Run) {
 		r.S.Go("peer", func() {
 			r.S.Park("a.peer.send")
 			peer.SendBytes(stream)
+			if peerDropsAfterEcho {
+				// a peer that sends its Close frame and tears the transport down
+				// at once: the echo cannot be written any more, the Close frame
+				// was received all the same
+				rc.Raw.Close()
+				return
+			}
 			peer.Drain()
 		})
 		r.S.Loop()
@@ -306,7 +313,9 @@ func runC06(r *Run) {
 				closes = append(closes, f)
 			}
 		}
-		if readerMode != 1 || nBefore == 0 {
+		if peerDropsAfterEcho {
+			// nobody was there to receive an echo
+		} else if readerMode != 1 || nBefore == 0 {
 			if len(closes) == 0 {
 				r.Violate("close-not-echoed", sig, "peer's Close(%d) was not echoed", code)
 			} else if !bytes.Equal(closes[0].Payload, pl) {
